@@ -209,7 +209,7 @@ def canonPrimsC : Prims where
     | _ => .error .other
   constant dd c := emitCol dd (.const c)
   factorValue := encFactorC
-  lastValues := encLastValues
+  lastValues := encLastValuesC
 
 /-! ### the data section -/
 
